@@ -27,15 +27,15 @@ theorem erase_atLeast (L : DocLevels) (k : Nat) (s : S) : (atLeast L k s).erase 
 
 theorem canon_erase_both (L : DocLevels) (s : S) :
     (canon L s).erase = s.erase ∧ (canon L s).eraseArgs = s.eraseArgs
-      ∧ (canon L s).eraseItems = s.eraseItems := by
+      ∧ (canon L s).eraseItems = s.eraseItems ∧ (canon L s).eraseEntries = s.eraseEntries := by
   induction s with
   | unary u e ih =>
     simp only [canon]
-    split <;> simp [erase, eraseArgs, eraseItems, erase_atLeast, ih.1]
+    split <;> simp [erase, eraseArgs, eraseItems, eraseEntries, erase_atLeast, ih.1]
   | index e i ihe ihi =>
     simp only [canon]
-    split <;> simp [erase, eraseArgs, eraseItems, ihe.1, ihi.1]
-  | _ => simp_all [canon, erase, eraseArgs, eraseItems, erase_atLeast]
+    split <;> simp [erase, eraseArgs, eraseItems, eraseEntries, ihe.1, ihi.1]
+  | _ => simp_all [canon, erase, eraseArgs, eraseItems, eraseEntries, erase_atLeast]
 
 theorem canon_erase (L : DocLevels) (s : S) : (canon L s).erase = s.erase :=
   (canon_erase_both L s).1
@@ -62,17 +62,18 @@ theorem docwp_atLeast (L : DocLevels) (k : Nat) (s : S) (h : s.DocWP L) : (atLea
 
 theorem canon_docwp_both (L : DocLevels) (hL : LevelsOK L) (s : S) :
     (s.Valid → (canon L s).DocWP L) ∧ (s.ValidArgs → (canon L s).DocWPArgs L)
-      ∧ (s.ValidItems → (canon L s).DocWPItems L) := by
+      ∧ (s.ValidItems → (canon L s).DocWPItems L)
+      ∧ (s.ValidEntries → (canon L s).DocWPEntries L) := by
   induction s with
-  | int v => exact ⟨fun _ => trivial, fun h => by simp [ValidArgs] at h, fun h => by simp [ValidItems] at h⟩
-  | float v => exact ⟨fun _ => trivial, fun h => by simp [ValidArgs] at h, fun h => by simp [ValidItems] at h⟩
-  | str v => exact ⟨fun _ => trivial, fun h => by simp [ValidArgs] at h, fun h => by simp [ValidItems] at h⟩
-  | bool v => exact ⟨fun _ => trivial, fun h => by simp [ValidArgs] at h, fun h => by simp [ValidItems] at h⟩
-  | noneLit kw => exact ⟨id, fun h => by simp [ValidArgs] at h, fun h => by simp [ValidItems] at h⟩
-  | var n => exact ⟨id, fun h => by simp [ValidArgs] at h, fun h => by simp [ValidItems] at h⟩
-  | paren e ih => exact ⟨ih.1, fun h => by simp [ValidArgs] at h, fun h => by simp [ValidItems] at h⟩
+  | int v => exact ⟨fun _ => trivial, fun h => by simp [ValidArgs] at h, fun h => by simp [ValidItems] at h, fun h => by simp [ValidEntries] at h⟩
+  | float v => exact ⟨fun _ => trivial, fun h => by simp [ValidArgs] at h, fun h => by simp [ValidItems] at h, fun h => by simp [ValidEntries] at h⟩
+  | str v => exact ⟨fun _ => trivial, fun h => by simp [ValidArgs] at h, fun h => by simp [ValidItems] at h, fun h => by simp [ValidEntries] at h⟩
+  | bool v => exact ⟨fun _ => trivial, fun h => by simp [ValidArgs] at h, fun h => by simp [ValidItems] at h, fun h => by simp [ValidEntries] at h⟩
+  | noneLit kw => exact ⟨id, fun h => by simp [ValidArgs] at h, fun h => by simp [ValidItems] at h, fun h => by simp [ValidEntries] at h⟩
+  | var n => exact ⟨id, fun h => by simp [ValidArgs] at h, fun h => by simp [ValidItems] at h, fun h => by simp [ValidEntries] at h⟩
+  | paren e ih => exact ⟨ih.1, fun h => by simp [ValidArgs] at h, fun h => by simp [ValidItems] at h, fun h => by simp [ValidEntries] at h⟩
   | unary u e ih =>
-    refine ⟨?_, fun h => by simp [ValidArgs] at h, fun h => by simp [ValidItems] at h⟩
+    refine ⟨?_, fun h => by simp [ValidArgs] at h, fun h => by simp [ValidItems] at h, fun h => by simp [ValidEntries] at h⟩
     have ih := ih.1
     intro hv
     have hu := hL.unary u
@@ -88,7 +89,7 @@ theorem canon_docwp_both (L : DocLevels) (hL : LevelsOK L) (s : S) :
       simp only [startsUnary, Bool.or_eq_true, beq_iff_eq, not_or] at hs
       exact ⟨h1, h2, hs.1, hs.2⟩
   | binary op l r ihl ihr =>
-    refine ⟨?_, fun h => by simp [ValidArgs] at h, fun h => by simp [ValidItems] at h⟩
+    refine ⟨?_, fun h => by simp [ValidArgs] at h, fun h => by simp [ValidItems] at h, fun h => by simp [ValidEntries] at h⟩
     have ihl := ihl.1
     have ihr := ihr.1
     intro hv
@@ -101,7 +102,7 @@ theorem canon_docwp_both (L : DocLevels) (hL : LevelsOK L) (s : S) :
       · exact ⟨lvl_atLeast L _ _ (by omega), lvl_atLeast L _ _ (by omega)⟩
     · simpa [erase_atLeast, canon_erase] using hcc
   | notIn l r ihl ihr =>
-    refine ⟨?_, fun h => by simp [ValidArgs] at h, fun h => by simp [ValidItems] at h⟩
+    refine ⟨?_, fun h => by simp [ValidArgs] at h, fun h => by simp [ValidItems] at h, fun h => by simp [ValidEntries] at h⟩
     have ihl := ihl.1
     have ihr := ihr.1
     intro hv
@@ -110,7 +111,7 @@ theorem canon_docwp_both (L : DocLevels) (hL : LevelsOK L) (s : S) :
     exact ⟨docwp_atLeast L _ _ (ihl hv.1), docwp_atLeast L _ _ (ihr hv.2),
       lvl_atLeast L _ _ (by omega), lvl_atLeast L _ _ (by omega)⟩
   | ternary c t f ihc iht ihf =>
-    refine ⟨?_, fun h => by simp [ValidArgs] at h, fun h => by simp [ValidItems] at h⟩
+    refine ⟨?_, fun h => by simp [ValidArgs] at h, fun h => by simp [ValidItems] at h, fun h => by simp [ValidEntries] at h⟩
     have ihc := ihc.1
     have iht := iht.1
     have ihf := ihf.1
@@ -119,21 +120,21 @@ theorem canon_docwp_both (L : DocLevels) (hL : LevelsOK L) (s : S) :
     simp only [canon]
     exact ⟨ihc hv.1, docwp_atLeast L _ _ (iht hv.2.1), ihf hv.2.2, lvl_atLeast L _ _ (by omega)⟩
   | filter e n ih =>
-    refine ⟨?_, fun h => by simp [ValidArgs] at h, fun h => by simp [ValidItems] at h⟩
+    refine ⟨?_, fun h => by simp [ValidArgs] at h, fun h => by simp [ValidItems] at h, fun h => by simp [ValidEntries] at h⟩
     have ih := ih.1
     intro hv
     have hb := hL.bin .Pipe
     simp only [canon]
     exact ⟨docwp_atLeast L _ _ (ih hv), lvl_atLeast L _ _ (by omega)⟩
   | test e n g ih =>
-    refine ⟨?_, fun h => by simp [ValidArgs] at h, fun h => by simp [ValidItems] at h⟩
+    refine ⟨?_, fun h => by simp [ValidArgs] at h, fun h => by simp [ValidItems] at h, fun h => by simp [ValidEntries] at h⟩
     have ih := ih.1
     intro hv
     have hb := hL.bin .Is
     simp only [canon]
     exact ⟨docwp_atLeast L _ _ (ih hv.1), lvl_atLeast L _ _ (by omega), hv.2⟩
   | index e i ihe ihi =>
-    refine ⟨?_, fun h => by simp [ValidArgs] at h, fun h => by simp [ValidItems] at h⟩
+    refine ⟨?_, fun h => by simp [ValidArgs] at h, fun h => by simp [ValidItems] at h, fun h => by simp [ValidEntries] at h⟩
     have ihe := ihe.1
     have ihi := ihi.1
     intro hv
@@ -143,7 +144,7 @@ theorem canon_docwp_both (L : DocLevels) (hL : LevelsOK L) (s : S) :
       exact ⟨ihe hv.1, ihi hv.2, hp⟩
     · exact ⟨ihe hv.1, ihi hv.2, rfl⟩
   | attr e n o ih =>
-    refine ⟨?_, fun h => by simp [ValidArgs] at h, fun h => by simp [ValidItems] at h⟩
+    refine ⟨?_, fun h => by simp [ValidArgs] at h, fun h => by simp [ValidItems] at h, fun h => by simp [ValidEntries] at h⟩
     have ih := ih.1
     intro hv
     obtain ⟨hc, hve, hr⟩ := hv
@@ -151,7 +152,7 @@ theorem canon_docwp_both (L : DocLevels) (hL : LevelsOK L) (s : S) :
     simp only [canon]
     exact ⟨this.1, ih hve, by rw [this.2]; exact hr⟩
   | sub e i o ihe ihi =>
-    refine ⟨?_, fun h => by simp [ValidArgs] at h, fun h => by simp [ValidItems] at h⟩
+    refine ⟨?_, fun h => by simp [ValidArgs] at h, fun h => by simp [ValidItems] at h, fun h => by simp [ValidEntries] at h⟩
     have ihe := ihe.1
     have ihi := ihi.1
     intro hv
@@ -160,37 +161,58 @@ theorem canon_docwp_both (L : DocLevels) (hL : LevelsOK L) (s : S) :
     simp only [canon]
     exact ⟨this.1, ihe hve, ihi hvi⟩
   | argNil => exact ⟨fun h => by simp [Valid] at h, fun _ => trivial,
-      fun h => by simp [ValidItems] at h⟩
+      fun h => by simp [ValidItems] at h, fun h => by simp [ValidEntries] at h⟩
   | argCons k v r ihv ihr =>
-    refine ⟨fun h => by simp [Valid] at h, ?_, fun h => by simp [ValidItems] at h⟩
+    refine ⟨fun h => by simp [Valid] at h, ?_, fun h => by simp [ValidItems] at h, fun h => by simp [ValidEntries] at h⟩
     intro hv
     simp only [canon]
     exact ⟨ihv.1 hv.1, by rw [canon_argNames]; exact hv.2.1, ihr.2.1 hv.2.2⟩
   | itemNil => exact ⟨fun h => by simp [Valid] at h, fun h => by simp [ValidArgs] at h,
-      fun _ => trivial⟩
+      fun _ => trivial, fun h => by simp [ValidEntries] at h⟩
   | itemCons sp x r ihx ihr =>
-    refine ⟨fun h => by simp [Valid] at h, fun h => by simp [ValidArgs] at h, ?_⟩
+    refine ⟨fun h => by simp [Valid] at h, fun h => by simp [ValidArgs] at h, ?_,
+      fun h => by simp [ValidEntries] at h⟩
     intro hv
     simp only [canon]
-    exact ⟨ihx.1 hv.1, ihr.2.2 hv.2⟩
+    exact ⟨ihx.1 hv.1, ihr.2.2.1 hv.2⟩
+  | entryNil => exact ⟨fun h => by simp [Valid] at h, fun h => by simp [ValidArgs] at h,
+      fun h => by simp [ValidItems] at h, fun _ => trivial⟩
+  | entryKV k v r ihv ihr =>
+    refine ⟨fun h => by simp [Valid] at h, fun h => by simp [ValidArgs] at h,
+      fun h => by simp [ValidItems] at h, ?_⟩
+    intro hv
+    simp only [canon]
+    exact ⟨ihv.1 hv.1, ihr.2.2.2 hv.2⟩
+  | entrySpread x r ihx ihr =>
+    refine ⟨fun h => by simp [Valid] at h, fun h => by simp [ValidArgs] at h,
+      fun h => by simp [ValidItems] at h, ?_⟩
+    intro hv
+    simp only [canon]
+    exact ⟨ihx.1 hv.1, ihr.2.2.2 hv.2⟩
+  | mapLit es ih =>
+    refine ⟨?_, fun h => by simp [ValidArgs] at h, fun h => by simp [ValidItems] at h,
+      fun h => by simp [ValidEntries] at h⟩
+    intro hv
+    simp only [canon]
+    exact ih.2.2.2 hv
   | arr items ih =>
-    refine ⟨?_, fun h => by simp [ValidArgs] at h, fun h => by simp [ValidItems] at h⟩
+    refine ⟨?_, fun h => by simp [ValidArgs] at h, fun h => by simp [ValidItems] at h, fun h => by simp [ValidEntries] at h⟩
     intro hv
     simp only [canon]
-    exact ih.2.2 hv
+    exact ih.2.2.1 hv
   | call n args ih =>
-    refine ⟨?_, fun h => by simp [ValidArgs] at h, fun h => by simp [ValidItems] at h⟩
+    refine ⟨?_, fun h => by simp [ValidArgs] at h, fun h => by simp [ValidItems] at h, fun h => by simp [ValidEntries] at h⟩
     intro hv
     simp only [canon]
     exact ⟨hv.1, ih.2.1 hv.2⟩
   | filterA e n args ihe iha =>
-    refine ⟨?_, fun h => by simp [ValidArgs] at h, fun h => by simp [ValidItems] at h⟩
+    refine ⟨?_, fun h => by simp [ValidArgs] at h, fun h => by simp [ValidItems] at h, fun h => by simp [ValidEntries] at h⟩
     intro hv
     have hb := hL.bin .Pipe
     simp only [canon]
     exact ⟨docwp_atLeast L _ _ (ihe.1 hv.1), lvl_atLeast L _ _ (by omega), iha.2.1 hv.2⟩
   | testA e n g args ihe iha =>
-    refine ⟨?_, fun h => by simp [ValidArgs] at h, fun h => by simp [ValidItems] at h⟩
+    refine ⟨?_, fun h => by simp [ValidArgs] at h, fun h => by simp [ValidItems] at h, fun h => by simp [ValidEntries] at h⟩
     intro hv
     have hb := hL.bin .Is
     simp only [canon]
